@@ -319,7 +319,7 @@ type c16Block struct {
 type c16Store struct {
 	Blocks []c16Block `json:"blocks"`
 	Layout string     `json:"layout"`        // keys-first | certs-first | interleaved
-	Bad    string     `json:"bad,omitempty"` // "" | missing | dir | badblock | badder | wrongpw | garbage | truncated
+	Bad    string     `json:"bad,omitempty"` // "" | missing | dir | badblock | badder | wrongpw | garbage | blank | truncated | boundary | trailing-space | text-between | text-after
 }
 
 type c16Tmpl struct {
@@ -453,8 +453,11 @@ func (p *c16PKI) render(s c16Store) c16File {
 	case "dir":
 		return c16File{bad: true, mode: "dir"}
 	case "garbage":
-		// no PEM block at all: an empty store, not an error
-		return c16File{bytes: []byte("this is not a key store\n"), mode: "write"}
+		// no PEM block at all, but text: since the fix for C19-F10 an error (before: an empty store)
+		return c16File{bad: true, bytes: []byte("this is not a key store\n"), mode: "write"}
+	case "blank":
+		// nothing but white space: no entry, no error from the reader (the empty store is refused later)
+		return c16File{bytes: []byte("\n  \n\t\n"), mode: "write"}
 	}
 
 	type piece struct {
@@ -521,18 +524,40 @@ func (p *c16PKI) render(s c16Store) c16File {
 	for i, pc := range all {
 		enc := pem.EncodeToMemory(pc.blk)
 
-		if s.Bad == "truncated" && i == len(all)-1 {
-			// cut inside the last block: pem.Decode finds no further block, everything before it stays
+		switch {
+		case s.Bad == "truncated" && i == len(all)-1:
+			// cut inside the last block: undecodable non-blank bytes after the last complete entry — since the fix for
+			// C19-F10 the whole file is refused (before: everything before the cut was loaded)
 			enc = enc[:len(enc)/2]
 			survive = len(all) - 1
+		case s.Bad == "boundary" && i == len(all)-1:
+			// cut exactly at a block boundary: a well-formed file with one entry less
+			enc = nil
+			survive = len(all) - 1
+		case s.Bad == "text-between" && i > 0:
+			// pem.Decode skips anything between entries
+			buf.WriteString("# entry " + fmt.Sprint(i) + " follows\nsome text that is no pem data\n")
 		}
 
 		buf.Write(enc)
 	}
 
+	switch s.Bad {
+	case "trailing-space":
+		buf.WriteString("\n   \n\t\r\n")
+	case "text-after":
+		buf.WriteString("trailing text that is no pem data\n")
+	}
+
 	out := c16File{bytes: buf.Bytes(), mode: "write"}
 
 	switch s.Bad {
+	case "truncated":
+		if len(all) != 0 {
+			return c16File{bad: true, bytes: buf.Bytes(), mode: "write"}
+		}
+	case "text-after":
+		return c16File{bad: true, bytes: buf.Bytes(), mode: "write"}
 	case "badblock":
 		buf.Write(pem.EncodeToMemory(&pem.Block{Type: "PUBLIC KEY", Bytes: []byte{1, 2, 3}}))
 
@@ -1596,7 +1621,10 @@ func c16GenStore(r *vf.Rand, malformed bool) c16Store {
 	}
 
 	if malformed && r.Chance(45) {
-		s.Bad = vf.Pick(r, []string{"missing", "dir", "badblock", "badder", "wrongpw", "garbage", "truncated", "truncated"})
+		s.Bad = vf.Pick(r, []string{
+			"missing", "dir", "badblock", "badder", "wrongpw", "garbage", "blank", "truncated", "truncated", "boundary", "boundary",
+			"trailing-space", "text-between", "text-after",
+		})
 
 		if s.Bad == "wrongpw" {
 			s.Blocks[0].Enc = "encrypted"
@@ -1615,7 +1643,10 @@ func c16NextStore(r *vf.Rand, cur c16Store, malformed bool) c16Store {
 	if malformed && r.Chance(60) {
 		s := c16GenStore(r, true)
 		if s.Bad == "" {
-			s.Bad = vf.Pick(r, []string{"missing", "dir", "badblock", "badder", "wrongpw", "garbage", "truncated"})
+			s.Bad = vf.Pick(r, []string{
+				"missing", "dir", "badblock", "badder", "wrongpw", "garbage", "blank", "truncated", "boundary", "trailing-space",
+				"text-between", "text-after",
+			})
 
 			if s.Bad == "wrongpw" && len(s.Blocks) != 0 {
 				s.Blocks[0].Enc = "encrypted"
@@ -1941,7 +1972,7 @@ func c16Corpus() []c16Case {
 			Store: one(rs[0], ""),
 			Ops:   []c16Op{{Kind: "exec", Sub: "alice"}, {Kind: "jwks"}, {Kind: "exec", Sub: "alice"}},
 		},
-		// first entry is active without key id; certificates are published; reload to an empty file panics (C19-F1)
+		// first entry is active without key id; certificates are published; a reload to a file without any pem entry is refused (was a panic: C19-F1)
 		{
 			Cfg: c16Config{},
 			Store: c16Store{Layout: "interleaved", Blocks: []c16Block{
@@ -2068,6 +2099,23 @@ func c16Corpus() []c16Case {
 			},
 			Store: one(ec[1], "key1"),
 			Ops:   []c16Op{{Kind: "jwks"}, {Kind: "exec", Sub: "alice"}, {Kind: "reload", Store: st(one(rs[2], "key1"))}, {Kind: "exec", Sub: "alice"}, {Kind: "jwks"}},
+		},
+		// a file cut inside its last entry is refused as a whole and the signer keeps its state (fix for C19-F10); cut at an
+		// entry boundary it is a smaller, well-formed store; text between entries and trailing white space are harmless
+		{
+			Cfg:   c16Config{},
+			Store: c16Store{Layout: "keys-first", Blocks: []c16Block{{Key: ec[0], XKid: "a", Enc: "pkcs8"}, {Key: ec[1], XKid: "b", Enc: "pkcs8"}}},
+			Ops: []c16Op{
+				{Kind: "reload", Store: st(c16Store{Layout: "keys-first", Bad: "truncated", Blocks: []c16Block{{Key: rs[0], XKid: "c", Enc: "pkcs8"}, {Key: rs[1], XKid: "d", Enc: "pkcs8"}}})},
+				{Kind: "exec", Sub: "alice"}, {Kind: "jwks"},
+				{Kind: "reload", Store: st(c16Store{Layout: "keys-first", Bad: "boundary", Blocks: []c16Block{{Key: rs[0], XKid: "c", Enc: "pkcs8"}, {Key: rs[1], XKid: "d", Enc: "pkcs8"}}})},
+				{Kind: "exec", Sub: "alice"}, {Kind: "jwks"},
+				{Kind: "reload", Store: st(c16Store{Layout: "interleaved", Bad: "text-between", Blocks: []c16Block{{Key: ec[1], XKid: "e", Enc: "trad", Chain: "ca"}, {Key: rs[1], XKid: "d", Enc: "pkcs8"}}})},
+				{Kind: "jwks"},
+				{Kind: "reload", Store: st(c16Store{Layout: "keys-first", Bad: "text-after", Blocks: []c16Block{{Key: rs[2], XKid: "f", Enc: "pkcs8"}}})},
+				{Kind: "reload", Store: st(c16Store{Layout: "keys-first", Bad: "trailing-space", Blocks: []c16Block{{Key: rs[2], XKid: "g", Enc: "pkcs8"}}})},
+				{Kind: "exec", Sub: "alice"}, {Kind: "jwks"},
+			},
 		},
 		// an expired issuing certificate makes the store unusable although the leaf is fine (audit B6)
 		{
